@@ -8,6 +8,15 @@ NEG = [('MC_Core2', 'MC_Core2_neg_GCClearsCache.cfg', 'collect_garbage keeps the
        ('MC_Core2', 'MC_Core2_neg_FoaIncrefsHigh.cfg', 'find_or_add forgets to incref the high child'),
        ('MC_Dyn', 'MC_Dyn_unprotected_retry.cfg', 'retry without try/finally: reordering silently disabled'),
        ('MC_Dyn', 'MC_Dyn_actual.cfg', 'undecorated entry points (find_or_add, two-step caller)')]
+NEG += [('MC_Views', 'MC_Views_neg_mark.cfg', 'to_nx forgets the complement mark'),
+        ('MC_Views', 'MC_Views_neg_desc.cfg', 'descendants drops the children of the high edge'),
+        ('MC_CopyLoad', 'MC_CopyLoad_neg.cfg', 'the JSON loader keeps its temporary references'),
+        ('MC_CopyLoad', 'MC_CopyLoad_neg_dddmp.cfg', 'dddmp.load hands the root ids over unmapped')]
+import glob
+for f in sorted(glob.glob(os.path.join(tlcrun.SPEC, 'MC_*_probe.cfg'))):
+    b = os.path.basename(f)
+    spec = {'MC_Let2_probe.cfg': 'MC_Ops2'}.get(b, b.replace('_probe.cfg', ''))
+    NEG.append((spec, b, 'non-vacuity probe: no two-level diagram is ever built'))
 bad = 0
 for spec, cfg, what in NEG:
     r = tlcrun.model_check(spec, cfg, 'neg', timeout=900)
